@@ -6,8 +6,9 @@
            [added by the `fix:` commit], `calculate_coordinate_position`, `into_polygon`, `new`),
            geo/src/algorithm/monotone/mod.rs (`MonotonicPolygons::intersects`).
 
-  The sweep that *builds* the chains (monotone/builder.rs, sweep.rs, segment.rs) is not modelled:
-  the pieces are taken from the implementation and decided by the tiling checker.
+  The sweep that *builds* the chains (monotone/builder.rs, sweep.rs, segment.rs) is modelled separately in
+  GeoModel/MonoBuildSweep.lean and GeoModel/MonoBuild.lean (compared with the code by `C10.monobuild`); for the
+  point queries of `C10.mono` the pieces are taken from the implementation and decided by the tiling checker.
 
   The chains of a piece are strictly increasing in the lexicographic order (x, then y); they may
   contain vertical segments. After the fix the bounding segments are selected by comparing whole
